@@ -115,45 +115,38 @@ fn vk_int_convert_small_to_f64() {
     cover();
 }
 
-// IBig: -x converts to the negated float with the mirrored error sign (RNE is symmetric); zero is +0.0.
+// IBig (inline magnitude, either sign): -a converts to the negated float with the mirrored error sign (RNE is
+// symmetric); zero is +0.0 whatever sign was asked for.
 #[cfg_attr(kani, kani::proof)]
 #[cfg_attr(not(kani), test)]
+#[cfg_attr(kani, kani::unwind(3))] // the heap (RefLarge) path is unreachable: its loops must not be entered
 fn vk_int_convert_small_ibig_to_f32() {
-    let x: i128 = any();
-    let a: u128 = if x == i128::MIN {
-        1u128 << 127
-    } else if x < 0 {
-        (-x) as u128
-    } else {
-        x as u128
-    };
-    let (bits, exact, pos) = vk_cs_flat32(IBig::from(x).to_f32());
-    if x < 0 {
+    let a: DoubleWord = any();
+    let neg: bool = any();
+    let v = IBig::from_parts_const(if neg { Negative } else { Positive }, a);
+    let (bits, exact, pos) = vk_cs_flat32(v.to_f32());
+    if neg && a != 0 {
         assert!(bits >> 31 == 1);
-        assert!(vk_cs_rne_ok(a, 23, 8, bits & 0x7fff_ffff, exact, exact || !pos));
+        assert!(vk_cs_rne_ok(a as u128, 23, 8, bits & 0x7fff_ffff, exact, !pos));
     } else {
-        assert!(vk_cs_rne_ok(a, 23, 8, bits, exact, pos));
+        assert!(vk_cs_rne_ok(a as u128, 23, 8, bits, exact, pos));
     }
     cover();
 }
 
 #[cfg_attr(kani, kani::proof)]
 #[cfg_attr(not(kani), test)]
+#[cfg_attr(kani, kani::unwind(3))] // the heap (RefLarge) path is unreachable: its loops must not be entered
 fn vk_int_convert_small_ibig_to_f64() {
-    let x: i128 = any();
-    let a: u128 = if x == i128::MIN {
-        1u128 << 127
-    } else if x < 0 {
-        (-x) as u128
-    } else {
-        x as u128
-    };
-    let (bits, exact, pos) = vk_cs_flat64(IBig::from(x).to_f64());
-    if x < 0 {
+    let a: DoubleWord = any();
+    let neg: bool = any();
+    let v = IBig::from_parts_const(if neg { Negative } else { Positive }, a);
+    let (bits, exact, pos) = vk_cs_flat64(v.to_f64());
+    if neg && a != 0 {
         assert!(bits >> 63 == 1);
-        assert!(vk_cs_rne_ok(a, 52, 11, bits & !(1u64 << 63), exact, exact || !pos));
+        assert!(vk_cs_rne_ok(a as u128, 52, 11, bits & !(1u64 << 63), exact, !pos));
     } else {
-        assert!(vk_cs_rne_ok(a, 52, 11, bits, exact, pos));
+        assert!(vk_cs_rne_ok(a as u128, 52, 11, bits, exact, pos));
     }
     cover();
 }
